@@ -204,7 +204,9 @@ func (g *GRE) SerializeTo(b gopacket.SerializeBuffer, opts gopacket.SerializeOpt
 			binary.BigEndian.PutUint16(buf[offset:offset+2], sre.AddressFamily)
 			buf[offset+2] = sre.SREOffset
 			buf[offset+3] = sre.SRELength
-			copy(buf[offset+4:offset+4+int(sre.SRELength)], sre.RoutingInformation)
+			info := buf[offset+4 : offset+4+int(sre.SRELength)]
+			// Zero whatever RoutingInformation does not cover: the buffer may hold stale data.
+			clear(info[copy(info, sre.RoutingInformation):])
 			offset += 4 + int(sre.SRELength)
 			sre = sre.Next
 		}
